@@ -81,11 +81,39 @@ def required_features(f, key, memo, stop=None):
     return req
 
 
+def machines(f):
+    return {r["machine"] for r in f.vocab}
+
+
+def is_arm(f, ce):
+    """A dispatch arm: a workspace function with its own #[target_feature] set, called from a dispatcher."""
+    if not ce or not ce.get("inst") or ce["inst"] not in f.instances:
+        return False
+    inst = f.instances[ce["inst"]]
+    if not inst.get("body") or f.defs[inst["def"]]["krate"] not in WORKSPACE_CRATES:
+        return False
+    ex, _ = graph.target_features(f, ce["inst"])
+    return bool(ex)
+
+
+def is_machine_body(f, ce):
+    """The Machine-generic implementation body an arm forwards to: a workspace function instantiated
+    with a Machine type as a generic argument and taking the machine value first."""
+    if not ce or not ce.get("inst") or ce["inst"] not in f.instances:
+        return False
+    inst = f.instances[ce["inst"]]
+    if not inst.get("body") or f.defs[inst["def"]]["krate"] not in WORKSPACE_CRATES:
+        return False
+    ms = machines(f)
+    return any(g.get("ty") in ms for g in inst.get("generic_args", []))
+
+
 def c03_arms(report, cfg):
     """R3.3 feature adequacy and R3.2 positional forwarding for every arm of every ppv-lite86 dispatch site."""
     f = facts.load(cfg)
     memo = {}
     nsites = narms = 0
+    all_bodies = set()
     dset = set(dispatchers(f))
     stop = lambda k: k in dset
     for dk in dispatchers(f):
@@ -97,7 +125,7 @@ def c03_arms(report, cfg):
         fn_impls = set()
         for i, t in graph.call_sites(f.instances[dk]):
             ce = t.get("callee")
-            if not ce or not ce.get("inst") or "::impl_" not in ce["inst"]:
+            if not is_arm(f, ce):
                 continue
             arm = ce["inst"]
             narms += 1
@@ -121,8 +149,9 @@ def c03_arms(report, cfg):
             dm = _def_map(ab)
             for _, t2 in graph.call_sites(f.instances[arm]):
                 ce2 = t2.get("callee")
-                if ce2 and ce2.get("inst") and "::fn_impl::<" in ce2["inst"]:
+                if is_machine_body(f, ce2):
                     fn_impls.add(f.instances[ce2["inst"]]["def"])
+                    all_bodies.add(f.instances[ce2["inst"]]["def"])
                     srcs = [_trace_param(ab, dm, a) for a in t2["args"][1:]]
                     if srcs != list(range(1, nargs + 1)):
                         report.violated("R3.2", akey + ":forwarding", "%s passes its parameters to fn_impl as %s instead of positionally (1..%d)"
@@ -133,6 +162,36 @@ def c03_arms(report, cfg):
             report.violated("R3.2", "%s:bodies@%s" % (short(dk), cfg), "arms of %s call different implementation bodies %s" % (short(dk), sorted(fn_impls)))
         elif fn_impls:
             report.ok("R3.2", "%s: one fn_impl body for all arms@%s" % (short(dk, 100), cfg))
+    # R3.6 consistency of the two discoveries: every Machine-generic body instantiated for several
+    # backends (found from the instance graph alone) is the body of exactly one recognised site
+    multi = {}
+    ms = machines(f)
+    for k, inst in f.instances.items():
+        if not inst.get("body") or f.defs[inst["def"]]["krate"] not in WORKSPACE_CRATES or f.defs[inst["def"]]["krate"] == "ppv_lite86":
+            continue
+        ga = inst.get("generic_args", [])
+        if ga and ga[0].get("ty") in ms:
+            multi.setdefault(inst["def"], set()).add(ga[0]["ty"])
+    roots = {d for d, mset in multi.items() if len(mset) >= 2}
+    # a root is a multi-machine body that is not merely a callee of another machine-generic body
+    called_by_generic = set()
+    for k, inst in f.instances.items():
+        if not inst.get("body"):
+            continue
+        ga = inst.get("generic_args", [])
+        if ga and ga[0].get("ty") in ms:
+            for _, t in graph.call_sites(inst):
+                ce = t.get("callee")
+                if ce and ce.get("inst") in f.instances:
+                    called_by_generic.add(f.instances[ce["inst"]]["def"])
+    roots = {d for d in roots if d not in called_by_generic or d in all_bodies}
+    missing = sorted(roots - all_bodies)
+    for d in missing:
+        report.violated("R3.6", "unrecognised-dispatch:%s@%s" % (short(d, 120), cfg),
+                        "%s is instantiated for %d backends but is not the body of any recognised run-time dispatch site"
+                        % (short(d, 120), len(multi[d])))
+    if not missing:
+        report.ok("R3.6", "%d multi-backend bodies = bodies of the %d recognised sites@%s" % (len(roots), nsites, cfg))
     return nsites, narms
 
 
@@ -182,7 +241,8 @@ def c03_instance_callers(report, cfg):
             ce = t.get("callee")
             if ce and ce.get("inst") and re.search(r" as ppv_lite86::types::Machine>::instance$", ce["inst"]):
                 n += 1
-                ok = ("::impl_" in k) or any("::fn_impl::<" in (t2.get("callee") or {}).get("inst", "") for _, t2 in graph.call_sites(inst))
+                ex, _ = graph.target_features(f, k)
+                ok = bool(ex) or any(is_machine_body(f, t2.get("callee")) for _, t2 in graph.call_sites(inst))
                 if ok:
                     report.ok("R3.2", "instance() caller %s@%s" % (short(k, 100), cfg))
                 else:
